@@ -190,6 +190,13 @@ class VersionConverter(object):
         # Reset status messages
         self.conversion_log = []
 
+        # A document of the current format version has nothing to convert: its value
+        # lists must not be taken for single v1.0 values.
+        if tree.getroot().get("version") == FORMAT_VERSION:
+            self._log("[Info] Document already is odML version %s, "
+                      "no conversion required" % FORMAT_VERSION)
+            return tree
+
         tree = self._replace_same_name_entities(tree)
         root = tree.getroot()
         root.set("version", FORMAT_VERSION)
